@@ -397,3 +397,25 @@ Proof.
   destruct (genU q0) as [[[[a1 a2] a3] [[b1 b2] b3]] [[c1' c2'] c3']].
   cbv [vsub vadd vmat mvec mtrans mk3 ment mrow comp dot3 mcol]. runfold. tuple_ring.
 Qed.
+
+(** ---- a rigid motion preserves the interatomic distances the permutative filter compares ---- *)
+Section Dist.
+Context {K : Type} {KO : Ops K} {KR : RingLaws K}.
+Add Ring KRing6 : (@ring_laws K KO KR).
+Local Open Scope K_scope.
+Lemma nsq_vmat_gram (w : vec3 K) (M : mat3 K) : nsq (vmat w M) = dot3 w (vmat w (mmul M (mtrans M))).
+Proof.
+  destruct w as [[x y] z], M as [[[[a1 a2] a3] [[b1 b2] b3]] [[c1 c2] c3]].
+  cbv [nsq vmat mmul mtrans mk3 ment mrow comp dot3 mcol]. ring.
+Qed.
+Lemma rigid_motion_preserves_distances (M : mat3 K) (t u v : vec3 K) :
+  mmul M (mtrans M) = mid ->
+  nsq (vsub (vadd (vmat u M) t) (vadd (vmat v M) t)) = nsq (vsub u v).
+Proof.
+  intros HO.
+  replace (vsub (vadd (vmat u M) t) (vadd (vmat v M) t)) with (vmat (vsub u v) M).
+  - rewrite nsq_vmat_gram, HO, vmat_mid. reflexivity.
+  - rewrite vmat_vsub. destruct (vmat u M) as [[a b] c], (vmat v M) as [[d e] f], t as [[t0 t1] t2].
+    cbv [vsub vadd]. vec3_ring.
+Qed.
+End Dist.
